@@ -409,12 +409,13 @@ def _run_bcomp(spec, ctx, D, E, penv, params, feat, N):
     W = np.concatenate(wts)
     env = {k: np.repeat(v, len(Q), axis=0) for k, v in penv.items()}
     env[rg.space_vars(I)[0][0]] = Q
-    stq = rg.status(E, env, tol)
-    undec = W[stq == rg.UNDECIDED].sum() / W.sum()
-    if undec > 0.02 or (stq == rg.IN).sum() < 50:
-        ctx.inconclusive_case("boundary-quadrature-undecided")
+    # a node of a leaf boundary belongs to the boundary of the result iff membership of the result
+    # is not constant around it; the nodes are exact float64 points, so a tiny radius decides this
+    # sharply (the tolerance-based status() would add a 4*tol/sin(angle) margin at every crossing)
+    keep = rg.probe_mixed(I, env, 1e-7 * geo.scale_of(E, penv))
+    if keep.sum() < 50:
+        ctx.inconclusive_case("boundary-quadrature-empty")
         return None
-    keep = stq == rg.IN
     Q, W = Q[keep], W[keep]
     lo, hi = Q.min(axis=0) - 1e-9, Q.max(axis=0) + 1e-9
     shape = (6, 6)
